@@ -17,7 +17,8 @@ CLAIMED = {
             'no-ops, look-ups never escape. The model is additionally tied to the code by running both on the same histories and '
             'comparing every step inside Coq; a direct oracle evaluates the property clauses on the implementation (also on every list '
             'object the attribute ever returned, with falsy elements, with another document\'s live list adopted, and on histories run '
-            'without any look-up between operations).',
+            'without any look-up between operations; the answers must also be determined by the contents: a library list with the '
+            'same objects in the same order answers every key alike).',
             'Trusts the Coq kernel/vm_compute, the translator\'s statement forms and the interpreter\'s semantics of each instruction '
             '(checked by correspondence on every run), the harness. Slices and sort() are outside the property\'s operation list; '
             'histories without intermediate look-ups are oracle-only.',
